@@ -231,13 +231,18 @@ func (p *ProjectionParser) makeProjection(s *Projection, q string, proj parse.Fi
 		p.haveFullname = true
 		field := s.addField(s.root, ".fullname")
 		initField(field)
-		makeFilter(extractFull)
-
-		project = func(r *benchfmt.Result, row *[]string) {
+		fullExt := func(r *benchfmt.Result) []byte {
 			if p.fullExtractor == nil {
 				p.fullExtractor = newExtractorFullName(p.fullnameKeys)
 			}
-			val := p.fullExtractor(r)
+			return p.fullExtractor(r)
+		}
+		// A fixed order filters on the projected value, which
+		// has the more specific keys excluded.
+		makeFilter(fullExt)
+
+		project = func(r *benchfmt.Result, row *[]string) {
+			val := fullExt(r)
 			(*row)[field.idx] = s.intern(val)
 		}
 
